@@ -160,11 +160,19 @@ func VerifyLightClientAttack(e *types.LightClientAttackEvidence, commonHeader, t
 //   - the block ID's must be different
 //   - The signatures must both be valid
 func VerifyDuplicateVote(e *types.DuplicateVoteEvidence, chainID string, valSet *types.ValidatorSet) error {
-	_, val := valSet.GetByAddress(e.VoteA.ValidatorAddress)
+	idx, val := valSet.GetByAddress(e.VoteA.ValidatorAddress)
 	if val == nil {
 		return fmt.Errorf("address %X was not a validator at height %d", e.VoteA.ValidatorAddress, e.Height())
 	}
 	pubKey := val.PubKey
+
+	// The validator index is not covered by the votes' signatures but it is part
+	// of the evidence (and of its hash): it must be the validator's own, or the
+	// same pair of votes makes any number of "new" pieces of evidence.
+	if e.VoteA.ValidatorIndex != idx || e.VoteB.ValidatorIndex != idx {
+		return fmt.Errorf("validator index in the votes (%d, %d) is not the validator's index %d",
+			e.VoteA.ValidatorIndex, e.VoteB.ValidatorIndex, idx)
+	}
 
 	// H/R/S must be the same
 	if e.VoteA.Height != e.VoteB.Height ||
